@@ -107,11 +107,13 @@ def main():
     items.append((idx, src, opts[idx % len(opts)], 6))
     idx += 1
   # an extra block of random programs whose if / else / try bodies and handlers may END in an unconditional return
-  # (branches that "definitely return": the return-lowering pass reorders the statements that follow them)
+  # (branches that "definitely return": the return-lowering pass reorders the statements that follow them); half of
+  # them also contain a raise that only an enclosing try handles
   ndef = nrand // 3
   for i in range(ndef):
     size = 2 + (i % 4)
-    src = progen.random_program(a.seed * 7000003 + i, size=size, avoid=avoid, features=('defret',))
+    src = progen.random_program(a.seed * 7000003 + i, size=size, avoid=avoid,
+                                features=('defret',) if i % 2 else ('defret', 'outerraise'))
     items.append((idx, src, opts[idx % len(opts)], 6))
     idx += 1
   programs = runs = nontrivial = 0
